@@ -2,6 +2,7 @@ package scen
 
 import (
 	"context"
+	mrand "math/rand/v2"
 	"fmt"
 	"net/netip"
 	"os"
@@ -188,8 +189,20 @@ func isUpHost(ups []plan.UpstreamSpec, a netip.Addr) bool {
 func RunRouter(t *testing.T, p *plan.Plan, keepLog int) *Result {
 	rp := p.Router
 	res := &Result{Seed: p.Seed, Family: p.Family, Focus: p.Focus, Arm: p.Arm, Stats: map[string]int64{}}
+	probe := func(tag string) {
+		if os.Getenv("SIM_RAND_DEBUG") != "" {
+			println("RANDPROBE", tag, mrand.Uint64())
+		}
+	}
+	probe("begin")
 	pki := peers.NewPKI()
-	dir, err := os.MkdirTemp("", "verifsim")
+	probe("pki")
+	// Not os.MkdirTemp: its name comes from the (pinned) runtime random
+	// stream, so concurrent simulator processes would collide and retry,
+	// consuming a load-dependent number of random draws.
+	dir := filepath.Join(os.TempDir(), fmt.Sprintf("verifsim-%d", os.Getpid()))
+	os.RemoveAll(dir)
+	err := os.Mkdir(dir, 0o700)
 	if err != nil {
 		res.Note = "tempdir: " + err.Error()
 		return res
@@ -201,6 +214,7 @@ func RunRouter(t *testing.T, p *plan.Plan, keepLog int) *Result {
 		return res
 	}
 	applyStartFault(rp, cfg, dir)
+	probe("config")
 	if p.Knobs.LogDebug {
 		mlog.SetLvl(zerolog.DebugLevel)
 	} else {
@@ -219,6 +233,7 @@ func RunRouter(t *testing.T, p *plan.Plan, keepLog int) *Result {
 			}
 		}()
 		synctest.Test(t, func(t *testing.T) {
+			probe("bubble")
 			s := sim.New(p.Seed, keepLog)
 			w := vnet.NewWorld(s)
 			installKnobs(s, p.Knobs)
@@ -251,11 +266,17 @@ func RunRouter(t *testing.T, p *plan.Plan, keepLog int) *Result {
 			if rp.StartFault != nil && rp.StartFault.Kind == "addr_in_use" {
 				occupy(w, rp, rp.StartFault.Pos)
 			}
+			probe("upstreams")
 			ctx, cancel := context.WithCancel(context.Background())
 			r, err := router.VRun(ctx, cfg)
+			probe("vrun")
 			h.StartErr = err
 			h.Started = err == nil
 			s.Logf("router_start", "err=%v", err != nil)
+			if os.Getenv("SIM_RAND_DEBUG") != "" {
+				s.Logf("rand_probe", "%d", mrand.Uint64())
+				vnet.RandProbe = mrand.Uint64
+			}
 			var cl *peers.Clients
 			if err == nil {
 				cl = &peers.Clients{S: s, W: w, PKI: pki, Servers: rp.Servers, Conns: rp.Conns, Ops: rp.Ops}
